@@ -35,7 +35,8 @@ Chk(s, ok, n) == IF ok THEN s ELSE Note(s, n)
 
 NoCfg == [typ |-> "sr", every |-> FALSE, ev |-> READ, efl |-> 0, tmo |-> 0, off0 |-> 0, tr0 |-> 0, used0 |-> 0]
 NoReg == [present |-> FALSE, fl |-> 0, dis |-> FALSE]
-NoH == [xfer |-> 0, err |-> 0, eof |-> 0, direct |-> FALSE, timer |-> FALSE, ferr |-> FALSE, ret |-> CB_NONE, n |-> 0]
+NoH == [xfer |-> 0, err |-> 0, eof |-> 0, direct |-> FALSE, timer |-> FALSE, ferr |-> FALSE, ret |-> CB_NONE, n |-> 0, ph |-> ""]
+LoopTyp == {"pkt", "acc"}            \* tp_task_pkt_rcvr_handler / tp_task_accept_handler: one callback per datagram / connection
 
 NewTask(size, used, off, tr, mem0) ==
   [cfg |-> NoCfg, tot |-> 0, foff |-> 0, buf |-> [size |-> size, used |-> used, off |-> off, tr |-> tr], mem |-> mem0,
@@ -51,7 +52,7 @@ IoArmed(s) == s.io.present /\ ~s.io.dis
 TmrArmed(s) == s.tmr.present /\ ~s.tmr.dis
 HasT(s) == s.cfg.tmo # 0
 IsRead(s) == s.cfg.ev = READ
-Ready(s) == IF IsRead(s) THEN s.q # << >> \/ s.peof \/ s.perr ELSE TRUE
+Ready(s) == IF s.cfg.typ \in LoopTyp THEN s.q # << >> ELSE IF IsRead(s) THEN s.q # << >> \/ s.peof \/ s.perr ELSE TRUE
 
 (* ---------------------------------------------------------------- the calls each step must make *)
 TmrOn(s) == <<P("tmr", ENABLE, TIMER, DISPATCH), St(s.cfg.tmo)>>
@@ -74,6 +75,7 @@ EnablePosts(s, en) == EnableTPosts(s, en) \o <<P("io", IF en THEN ENABLE ELSE DI
 
 (* ---------------------------------------------------------------- environment: the peer *)
 PeerWrite(s, ids) == [s EXCEPT !.q = @ \o ids, !.sent = @ \o ids]
+PeerItems(s, items, flat) == [s EXCEPT !.q = @ \o items, !.sent = @ \o flat]       \* datagrams / connections: the queue holds whole items
 PeerClose(s, reset) == [s EXCEPT !.peof = TRUE, !.perr = @ \/ reset]
 
 (* ---------------------------------------------------------------- tp_task_start_ex *)
@@ -152,23 +154,51 @@ DeliverTmr(s) ==
   IN [s1 EXCEPT !.tmr = [@ EXCEPT !.dis = TRUE], !.pc = "pre", !.h = [NoH EXCEPT !.timer = TRUE, !.err = ETIMEDOUT]]
 
 (* tp_task_handler_pre_int and the test before the transfer loop *)
+Inc(v, max, n) == IF max > v /\ max - v > n THEN v + n ELSE max       \* IO_BUF_VALUE_IN_RANGE_INC
+Dec(v, n) == IF v > n THEN v - n ELSE 0
+Store(m, at, ids) == [i \in 1..Len(m) |-> IF i > at /\ i <= at + Len(ids) THEN ids[i - at] ELSE m[i]]
 ToCb(s, err, eof, n) == [s EXCEPT !.pc = "cbwait", !.h = [@ EXCEPT !.err = err, !.eof = eof, !.n = n], !.tot = 0]
 PreEnd(s, obs) ==
-  IF s.h.timer
+  IF s.cfg.typ = "conn"          \* tp_task_connect_handler: stop first, then report (no pre_int / post_int)
+  THEN ToCb(Chk([s EXCEPT !.io = NoReg, !.tmr = IF HasT(s) THEN NoReg ELSE @], obs = StopPosts(s), "PROPERTY:ArmingOps:connect-stop"),
+            s.h.err, 0, 0)
+  ELSE IF s.h.timer
   THEN LET s1 == IF s.cfg.efl = ONESHOT THEN [s EXCEPT !.io = NoReg, !.tmr = NoReg]
                  ELSE [s EXCEPT !.io = [@ EXCEPT !.present = TRUE, !.dis = TRUE]]
-       IN ToCb(Chk(s1, obs \in PreTmrPosts(s), "PROPERTY:ArmingOps:pre-timer"), ETIMEDOUT, 0, s.tot)
+           s2 == ToCb(Chk(s1, obs \in PreTmrPosts(s), "PROPERTY:ArmingOps:pre-timer"), ETIMEDOUT, 0, s.tot)
+       IN IF s.cfg.typ \in LoopTyp THEN [s2 EXCEPT !.h = [@ EXCEPT !.ph = "errcb"]] ELSE s2
   ELSE LET s1 == IF ~HasT(s) THEN s
                  ELSE IF s.cfg.efl = ONESHOT THEN [s EXCEPT !.tmr = NoReg]
                  ELSE [s EXCEPT !.tmr = IF @.present THEN [@ EXCEPT !.dis = TRUE] ELSE @]
            s2 == Chk(s1, obs = PreIoPosts(s), "PROPERTY:ArmingOps:pre-io")
        IN IF s.cfg.typ = "notify" THEN ToCb(s2, s.h.err, s.h.eof, BIG)         \* tp_task_notify_handler: no I/O, the callback does it
+          ELSE IF s.cfg.typ \in LoopTyp
+            THEN (IF s.h.err # 0 THEN [ToCb(s2, s.h.err, 0, 0) EXCEPT !.h = [@ EXCEPT !.ph = "errcb"]]   \* the error is reported first
+                  ELSE [s2 EXCEPT !.pc = "xferL", !.h = [@ EXCEPT !.eof = 0, !.ret = CB_CONTINUE]])
           ELSE IF s.buf.tr = 0 THEN ToCb(s2, s.h.err, s.h.eof, s.tot) ELSE [s2 EXCEPT !.pc = "xfer"]
 
+(* one recvfrom / accept of tp_task_pkt_rcvr_handler / tp_task_accept_handler *)
+ToPost(s, ret) == [s EXCEPT !.h = [@ EXCEPT !.ret = ret], !.lastret = ret, !.pc = "post"]
+XferL(s, r) ==
+  LET pkt == s.cfg.typ = "pkt"
+      argsOk == IF pkt THEN r.fn = "recvfrom" /\ r.poff = s.buf.off /\ r.len = s.buf.tr /\ r.dontwait = 1 ELSE r.fn = "accept4" /\ r.dontwait = 1
+      inWin == ~pkt \/ (r.poff >= 0 /\ r.poff + r.len <= s.buf.size)
+      s0 == Chk(Chk(s, argsOk, "PROPERTY:WindowRespected:io-call-arguments"), inWin, "PROPERTY:WindowRespected:io-call-outside-window")
+      n == r.rc
+  IN
+  IF n > 0 THEN
+    LET b1 == IF pkt THEN [s.buf EXCEPT !.used = Inc(@, s.buf.size, n), !.off = Inc(@, s.buf.size, n), !.tr = Dec(@, n)] ELSE s.buf
+        s1 == [s0 EXCEPT !.buf = b1, !.q = Tail(@), !.pend = r.ids,
+                         !.mem = IF pkt /\ r.poff >= 0 /\ r.poff + n <= Len(@) THEN Store(@, r.poff, r.ids) ELSE @]
+    IN [ToCb(s1, 0, 0, n) EXCEPT !.h = [@ EXCEPT !.ph = "item"]]
+  ELSE IF n = 0 THEN ToPost([s0 EXCEPT !.q = IF @ # << >> THEN Tail(@) ELSE @], s.h.ret)   \* (a datagram read into an empty window is gone)
+  ELSE LET e == ErrFilter(IF r.err = 0 THEN EINVAL ELSE r.err) IN
+    IF e = 0 THEN ToPost(s0, CB_CONTINUE)
+    ELSE [ToCb(s0, e, 0, 0) EXCEPT !.h = [@ EXCEPT !.ph = "errcb"]]
+XferLEnv(s, r) == /\ (r.rc > 0 => s.q # << >> /\ r.ids = SubSeq(Head(s.q), 1, Len(r.ids)) /\ (s.cfg.typ = "acc" => r.ids = Head(s.q)))
+                  /\ (r.rc > 0 /\ s.cfg.typ = "pkt" => r.rc = Len(r.ids) /\ r.rc = Min(r.cap, Len(Head(s.q))))
+
 (* one recv / send / pread / pwrite of the transfer loop; r = what the wrapper saw *)
-Inc(v, max, n) == IF max > v /\ max - v > n THEN v + n ELSE max       \* IO_BUF_VALUE_IN_RANGE_INC
-Dec(v, n) == IF v > n THEN v - n ELSE 0
-Store(m, at, ids) == [i \in 1..Len(m) |-> IF i > at /\ i <= at + Len(ids) THEN ids[i - at] ELSE m[i]]
 FnOf(s) == IF s.cfg.typ = "sr" THEN (IF IsRead(s) THEN "recv" ELSE "send") ELSE (IF IsRead(s) THEN "pread" ELSE "pwrite")
 Xfer(s, r) ==
   LET argsOk == /\ r.fn = FnOf(s) /\ r.poff = s.buf.off /\ r.len = s.buf.tr
@@ -204,10 +234,11 @@ CbBegin(s, o) ==
       curOk == o.size = s.buf.size /\ o.used = s.buf.used /\ o.off = s.buf.off /\ o.tr = s.buf.tr /\ o.foff = s.foff
                /\ o.off + o.tr <= o.size /\ o.used <= o.size
       bytesOk == /\ o.mem = s.mem                                                 \* every byte where it belongs, nothing else touched
-                 /\ (IsRead(s) /\ s.cfg.typ # "notify" =>
+                 /\ (s.cfg.typ = "acc" /\ o.nb = 1 => o.port = s.pend[1] /\ o.nonblock = 1)   \* the connection that was accepted, non-blocking
+                 /\ (IsRead(s) /\ s.cfg.typ \in {"sr", "rw", "pkt"} =>
                        ( (o.nb = Len(s.pend))                                        \* counts add up to the data taken from the descriptor
                          /\ (o.off >= o.nb) /\ (SubSeq(o.mem, o.off - o.nb + 1, o.off) = s.pend)
-                         /\ ((s.deliv \o s.pend \o s.q = s.sent) \/ (s.cfg.typ = "rw")) ))
+                         /\ ((s.cfg.typ # "sr") \/ (s.deliv \o s.pend \o s.q = s.sent)) ))
       wrOk == ~IsRead(s) => o.off >= s.cfg.off0 /\ s.outw = SubSeq(o.mem, s.cfg.off0 + 1, o.off)   \* exactly the window, in order
       again == Kinds(o) \cap s.reps
       s1 == Chk(Chk(Chk(Chk(s, argsOk, "PROPERTY:CallbackArguments"), curOk, "PROPERTY:BufferCursors"),
@@ -226,8 +257,14 @@ CbArgs(s) == [same |-> 1, err |-> IF s.h.err = ANYERR THEN 104 ELSE s.h.err, eof
 
 CbRead(s, ids) == [s EXCEPT !.q = SubSeq(@, Len(ids) + 1, Len(@)), !.deliv = @ \o ids]     \* a notify callback reads by itself
 CbRewind(s) == [s EXCEPT !.buf = [@ EXCEPT !.used = s.cfg.used0, !.off = s.cfg.off0, !.tr = s.cfg.tr0], !.outw = << >>]
-CbEnd(s, ret) == [s EXCEPT !.h = [@ EXCEPT !.ret = ret], !.lastret = ret,
-                           !.pc = IF s.pc = "dead" THEN "dead" ELSE IF s.h.direct THEN "dstart" ELSE "post"]
+CbEnd(s, ret) ==
+  LET r == IF s.cfg.typ = "conn" THEN CB_NONE ELSE ret                      \* the connect callback's return code is ignored
+      pc == IF s.pc = "dead" THEN "dead"
+            ELSE IF s.h.direct THEN "dstart"
+            ELSE IF s.cfg.typ \in LoopTyp /\ r = CB_CONTINUE /\ (s.h.ph = "item" \/ (s.h.ph = "errcb" /\ s.cfg.typ = "pkt" /\ ~s.h.timer))
+              THEN "xferL"                                                    \* the loop goes on with the next datagram / connection
+            ELSE "post"
+  IN [s EXCEPT !.h = [@ EXCEPT !.ret = r], !.lastret = r, !.pc = pc]
 
 (* tp_task_handler_post_int (the handler returns to the loop) *)
 PostEnd(s, obs) ==
